@@ -171,6 +171,10 @@ def finish(pid, level, coverage, violations, assumptions=None, inconclusive=None
         print("KNOWN-FINDING: property=%s %s [class=%s]" % (pid, kn[cls]["what"], cls))
     lines = []
     if new:
+        hist = {}
+        for v in new:
+            hist[v["class"]] = hist.get(v["class"], 0) + 1
+        print("  violation classes: " + ", ".join("%s x%d" % kv for kv in sorted(hist.items())))
         os.makedirs(REPLAYS, exist_ok=True)
         for v in new[:20]:
             h = hashlib.sha1(json.dumps(v, sort_keys=True).encode()).hexdigest()[:10]
